@@ -172,7 +172,7 @@ _D_OPS = {'d', 'a', 'y', 's', 'idle', 'g', 'acc'}
 
 def impl_eligible(scn):
     """The subset of scenarios the detailed model covers so far (grows with the model)."""
-    if any(b.get('parallel') or b.get('wal') for b in scn['buses']):
+    if any(b.get('wal') for b in scn['buses']):
         return False
     if any(h.get('kind', 'async') not in ('async', 'fwd', 'sync') for h in scn['handlers']):
         return False
@@ -246,7 +246,7 @@ def validate_impl(traces, jobs=8, batch=60, keep_dir=None, timeout=1800):
         with open(f, 'w') as fh:
             json.dump(docs, fh)
         files.append((f, [t for t, _ in b], max(len(x['lines'][-1]['s']['snap']) for x in docs),
-                      max(sum(1 for l in x['lines'] if l['a'] == 'HEnter') for x in docs), max(len(tr['scn']['drivers']) for _, tr in b)))
+                      max(sum(1 for l in x['lines'] if l['a'] == 'HEnter' or (l['a'] == 'Disp' and l.get('fw'))) + 2 for x in docs), max(len(tr['scn']['drivers']) for _, tr in b)))
 
     def one(item):
         f, ids, maxev, maxact, ndrv = item
